@@ -206,6 +206,15 @@ func handlePayload(h *Handler, errResp errorResponder, p dataPayload, e xmlstrea
 	conn.readLock.Lock()
 	defer conn.readLock.Unlock()
 
+	// The stream may have been closed since it was looked up.
+	if conn.readClosed {
+		_, err := xmlstream.Copy(e, errResp.Error(stanza.Error{
+			Type:      stanza.Cancel,
+			Condition: stanza.ItemNotFound,
+		}))
+		return err
+	}
+
 	if p.Seq != conn.seq {
 		_, err := xmlstream.Copy(e, errResp.Error(stanza.Error{
 			Type:      stanza.Cancel,
